@@ -1,4 +1,4 @@
 From Coq Require Extraction ExtrOcamlBasic.
-From GV Require Import Sym.AsuDefs Move.Move Move.Expand Move.PlusMinus.
+From GV Require Import Sym.AsuDefs Move.Move Move.Expand Move.PlusMinus Move.ReindexRows.
 Extraction Blacklist String List Nat.
-Extraction "move.ml" expand_entry move_entry apply_phase swaps_anomalous original_from pm_pairs apply_swaps row_asu operations sg_table.
+Extraction "move.ml" expand_entry move_entry apply_phase swaps_anomalous original_from pm_pairs apply_swaps reindex_rows row_asu operations sg_table.
